@@ -2,7 +2,9 @@ package main
 
 import (
 	"fmt"
+	"go/token"
 	"go/types"
+	"strings"
 
 	"golang.org/x/tools/go/ssa"
 )
@@ -13,6 +15,10 @@ import (
 // are backed by an in-engine byte log; every operation is recorded in the event list.
 
 type fileModel struct {
+	named   bool // a file of the in-engine file system: content is both what can be read and what was written
+	wpos    int
+	appendM bool
+	shared  *fileModel // for handles on named files: the file itself
 	id      int
 	content []*Term // bytes available for reading
 	rpos    int
@@ -50,6 +56,11 @@ func (x *Exec) event(format string, a ...interface{}) {
 	x.events = append(x.events, fmt.Sprintf(format, a...))
 }
 
+func (x *Exec) notExistErr() Value {
+	g := x.prog.ImportedPackage("io/fs").Var("ErrNotExist")
+	return load(x.global(g))
+}
+
 func (x *Exec) ioEOF() Value {
 	g := x.prog.ImportedPackage("io").Var("EOF")
 	return load(x.global(g))
@@ -58,15 +69,86 @@ func (x *Exec) ioEOF() Value {
 func (x *Exec) ioNative(name string, fn *ssa.Function, args []Value) (Value, bool) {
 	switch name {
 	case "os.OpenFile", "os.Open", "os.Create":
-		// a direct open that bypasses the configured OpenFile function is recorded as such
+		// a direct open (bypassing a configured OpenFile function) is recorded as an event; the file lives in a
+		// small in-engine file system keyed by name
 		n := "?"
 		if s, ok := args[0].(*Str); ok {
 			if c, ok := s.concrete(); ok {
 				n = c
 			}
 		}
-		x.event("osopen:%s", n)
-		return Tuple{x.newFile("os", nil), Iface{}}, true
+		flag := 0 // os.Open
+		if name == "os.Create" {
+			flag = 0x242 // O_RDWR|O_CREATE|O_TRUNC
+		} else if name == "os.OpenFile" {
+			flag = concInt(args[1])
+		}
+		x.event("osopen:%s:%#x", n, flag)
+		if x.fs == nil {
+			x.fs = map[string]*fileModel{}
+		}
+		file, exists := x.fs[n]
+		if !exists {
+			if flag&0x40 == 0 { // O_CREATE
+				return Tuple{Ptr{}, x.notExistErr()}, true
+			}
+			file = &fileModel{named: true}
+			x.fs[n] = file
+		}
+		if flag&0x200 != 0 { // O_TRUNC
+			file.content = nil
+		}
+		h := x.newFile("os", nil)
+		hm := x.fileOf(h)
+		hm.named, hm.shared, hm.appendM = true, file, flag&0x400 != 0 // O_APPEND
+		return Tuple{h, Iface{}}, true
+	case "os.Stat":
+		if n, ok := args[0].(*Str).concrete(); ok {
+			if _, exists := x.fs[n]; exists {
+				return Tuple{Iface{t: types.Typ[types.UnsafePointer], v: Native{"fileinfo"}}, Iface{}}, true
+			}
+		}
+		return Tuple{Iface{}, x.notExistErr()}, true
+	case "os.Remove":
+		if n, ok := args[0].(*Str).concrete(); ok {
+			if _, exists := x.fs[n]; exists {
+				delete(x.fs, n)
+				return Iface{}, true
+			}
+		}
+		return x.notExistErr(), true
+	case "os.IsNotExist":
+		e, _ := args[0].(Iface)
+		ne := x.notExistErr().(Iface)
+		return x.binop(token.EQL, e, ne, nil), true
+	case "os.ReadFile":
+		if n, ok := args[0].(*Str).concrete(); ok {
+			if f, exists := x.fs[n]; exists {
+				a := &ArrayObj{e: make([]Obj, len(f.content))}
+				for i := range a.e {
+					a.e[i] = &Cell{v: f.content[i]}
+				}
+				return Tuple{SliceV{a: a, len: len(f.content), cap: len(f.content)}, Iface{}}, true
+			}
+		}
+		return Tuple{SliceV{}, x.notExistErr()}, true
+	case "os.WriteFile":
+		if n, ok := args[0].(*Str).concrete(); ok {
+			if x.fs == nil {
+				x.fs = map[string]*fileModel{}
+			}
+			x.fs[n] = &fileModel{named: true, content: x.sliceBytes(args[1].(SliceV))}
+			return Iface{}, true
+		}
+		panic(abortPath{"os.WriteFile with a symbolic name", false})
+	case "path/filepath.Abs":
+		if p, ok := args[0].(*Str).concrete(); ok {
+			if !strings.HasPrefix(p, "/") {
+				p = "/cwd/" + p
+			}
+			return Tuple{strOf(p), Iface{}}, true
+		}
+		panic(abortPath{"filepath.Abs of a symbolic path", false})
 	case "(*os.File).Write", "(*os.File).WriteString":
 		f := x.fileOf(args[0])
 		var bs []*Term
@@ -86,11 +168,29 @@ func (x *Exec) ioNative(name string, fn *ssa.Function, args []Value) (Value, boo
 		if f.failAt > 0 && f.writes >= f.failAt {
 			return Tuple{BV(0, 64), x.newError("injected write failure")}, true
 		}
+		if f.named && f.shared != nil {
+			file := f.shared
+			if f.appendM {
+				file.content = append(file.content, bs...)
+			} else {
+				for _, b := range bs { // overwrite in place from the handle's position, extending the file
+					if f.wpos < len(file.content) {
+						file.content[f.wpos] = b
+					} else {
+						file.content = append(file.content, b)
+					}
+					f.wpos++
+				}
+			}
+		}
 		f.written = append(f.written, bs...)
 		return Tuple{BV(uint64(len(bs)), 64), Iface{}}, true
 	case "(*os.File).Read":
 		f := x.fileOf(args[0])
 		buf := args[1].(SliceV)
+		if f != nil && f.named && f.shared != nil {
+			f.content = f.shared.content
+		}
 		if f == nil || f.rpos >= len(f.content) {
 			if buf.len == 0 {
 				return Tuple{BV(0, 64), Iface{}}, true
@@ -122,7 +222,10 @@ func (x *Exec) ioNative(name string, fn *ssa.Function, args []Value) (Value, boo
 		ai := 0
 		if name == "os/exec.CommandContext" {
 			ai = 1
-			x.event("commandcontext")
+			// a background / TODO context can never be cancelled: such a command is an ordinary one
+			if ctx, ok := args[0].(Iface); ok && ctx.t != nil && !strings.Contains(ctx.t.String(), "backgroundCtx") && !strings.Contains(ctx.t.String(), "todoCtx") {
+				x.event("commandcontext")
+			}
 		}
 		exe := "?"
 		if s, ok := args[ai].(*Str); ok {
